@@ -36,8 +36,9 @@ func (v *Val) field(name string) *Val {
 }
 
 type deferEntry struct {
-	call *ast.CallExpr
-	args []*Val
+	call  *ast.CallExpr
+	args  []*Val
+	guard string // "" = unconditional; otherwise the deferred call only runs on paths where guard holds
 }
 
 type State struct {
@@ -187,6 +188,8 @@ type Eng struct {
 	localRefs    map[string]bool
 	inlining     map[*ast.FuncLit]bool
 	goOrd        int
+	recVar       types.Object
+	propID       string
 	curPos       token.Pos
 	prevState    *State
 	stableFields []string
@@ -719,7 +722,7 @@ func (e *Eng) merge(sts []*State) *State {
 		paths = append(paths, s.path)
 	}
 	n := &State{vars: map[types.Object]*Val{}, heap: map[string]string{}, counters: map[string]string{}}
-	n.defers = live[0].defers
+	n.defers = e.mergeDefers(live)
 	n.panicking = live[0].panicking
 	for _, s := range live {
 		if s.panicking != n.panicking {
@@ -727,11 +730,6 @@ func (e *Eng) merge(sts []*State) *State {
 		}
 		if s.recovered {
 			n.recovered = true
-		}
-	}
-	for _, s := range live {
-		if len(s.defers) != len(n.defers) {
-			e.gap("merge of states with different defer stacks (kept first)")
 		}
 	}
 	n.path = e.orPaths(paths)
@@ -922,4 +920,49 @@ func and(a, b string) string {
 		return a
 	}
 	return "(and " + a + " " + b + ")"
+}
+
+// mergeDefers joins defer stacks at a control-flow merge: the common prefix is kept, entries registered on only
+// some of the merged paths become conditional on those paths' conditions (the paths are mutually exclusive).
+func (e *Eng) mergeDefers(live []*State) []deferEntry {
+	same := true
+	for _, s := range live[1:] {
+		if len(s.defers) != len(live[0].defers) {
+			same = false
+			break
+		}
+		for i := range s.defers {
+			if s.defers[i].call != live[0].defers[i].call || s.defers[i].guard != live[0].defers[i].guard {
+				same = false
+			}
+		}
+	}
+	if same {
+		return live[0].defers
+	}
+	// common prefix
+	n := 0
+	for {
+		ok := true
+		for _, s := range live {
+			if n >= len(s.defers) || n >= len(live[0].defers) || s.defers[n].call != live[0].defers[n].call || s.defers[n].guard != live[0].defers[n].guard {
+				ok = false
+			}
+		}
+		if !ok {
+			break
+		}
+		n++
+	}
+	out := append([]deferEntry{}, live[0].defers[:n]...)
+	for _, s := range live {
+		for _, d := range s.defers[n:] {
+			g := s.path
+			if d.guard != "" {
+				g = e.define("dg", "Bool", and(s.path, d.guard))
+			}
+			out = append(out, deferEntry{call: d.call, args: d.args, guard: g})
+		}
+	}
+	return out
 }
